@@ -86,6 +86,7 @@ func main() {
 		fmt.Println("CHECKER-ERROR:", err)
 		os.Exit(2)
 	}
+	w.tier = *tier
 	r := &Report{Prop: pd.ID, Tier: *tier}
 	r.count("packages", len(w.Pkgs))
 	r.count("module functions (SSA, incl. closures and generic instances)", len(w.ModFns))
